@@ -79,7 +79,8 @@ def judge(ctx, mode, extra, obs, acc):
                 missing = [x for x in union if x not in pj]
                 ta = [x for x in pa if x in missing]
                 tb = [x for x in pb if x in missing]
-                tails = (ta == pa[len(pa) - len(ta):]) and (tb == pb[len(pb) - len(tb):]) and set(ta) | set(tb) == set(missing)
+                tails = (ta == pa[len(pa) - len(ta):]) and (tb == pb[len(pb) - len(tb):]) and set(ta) | set(tb) == set(missing) \
+                    and len(ta) < len(pa) and len(tb) < len(pb)      # proper tails: each part keeps at least its first segment
                 bad('joined-record-is-not-the-valid-union', 'J %s union %s (A %s B %s)' % (pj, union, pa, pb), 'join',
                     dict(sig, dropped='tail-of-parts' if tails else 'other'))
             if acc is not None:
